@@ -23,6 +23,7 @@ def oifOf (s : St) : Option Nat :=
 structure G1 (s : St) : Prop where
   frameProc : s.frame.isSome → s.proc = none
   procBlock : s.proc.isSome → s.msgBlock = true
+  procRun : s.proc.isSome → s.startD ≠ .none
   frameBlock : s.frame.isSome → s.startD ≠ .none → s.stopping = false → s.msgBlock = true
   ovOk : (runR C02.ovStep {} s.out).bad = false
   ovEq : (runR C02.ovStep {} s.out).pending = s.proc.isSome
@@ -103,6 +104,13 @@ structure Gpay (s : St) : Prop where
   payProc : ∀ g, s.proc = some g → ∀ x ∈ g.rest, x ∈ (runR C02.payStep {} s.out).seen
   payParked : ∀ r, s.parked = some r → ∀ x ∈ r.msgs, x ∈ (runR C02.payStep {} s.out).seen
 
+/-- after a processor failure nothing is delivered until the next `start()` (`C03.haltStep`): the consumer is
+    stopped or stopping, or the block of the failed call stays in the way for ever -/
+structure Ghalt (s : St) : Prop where
+  haltOk : (runR C03.haltStep {} s.out).bad = false
+  haltInv : (runR C03.haltStep {} s.out).halted = true →
+    s.startD = .none ∨ s.stopping = true ∨ (s.msgBlock = true ∧ s.proc = none ∧ s.frame = none)
+
 /-- fetch sizes follow the growth rule (`C14.grStep`): the monitor's size is the consumer's, or the consumer has
     just grown its buffer for a too-small answer and has not asked again yet -/
 structure Ggr (cfg : Cfg) (s : St) : Prop where
@@ -180,6 +188,6 @@ theorem emit_pres1 (o : Ob)
     (h3 : ∀ m, C03.clpStep m (.ob o) = m) : Pres1 (emit o) := by
   intro s hs
   refine ⟨?_, rfl⟩
-  constructor <;> simp only [emit, runR_cons, h1, h2, h3, oifOf] <;> first | exact hs.frameProc | exact hs.procBlock | exact hs.frameBlock | exact hs.ovOk | exact hs.ovEq | exact hs.oifOk | exact hs.oifEq | exact hs.reqId | exact hs.commitId | exact hs.idsNe | exact hs.clpOk | exact hs.clpProcessed | exact hs.clpFrame | exact hs.clpProc
+  constructor <;> simp only [emit, runR_cons, h1, h2, h3, oifOf] <;> first | exact hs.frameProc | exact hs.procBlock | exact hs.procRun | exact hs.frameBlock | exact hs.ovOk | exact hs.ovEq | exact hs.oifOk | exact hs.oifEq | exact hs.reqId | exact hs.commitId | exact hs.idsNe | exact hs.clpOk | exact hs.clpProcessed | exact hs.clpFrame | exact hs.clpProc
 
 end Afkak.Proofs.Consumer
